@@ -18,6 +18,9 @@ EXPLANATION = (
     "--distrust-genotypes, and positions are printed 1-based; R4 recombinations -- find_recombination pairs only consecutive members of one component, and the "
     "transmission value is decoded per trio in trios order."
 )
+EXPLANATION += (
+    " " + 'R4 also: the loop over phase sets in find_recombination has no break / return and skips a block only on a test of its own length.'
+)
 NOT_DECIDED = "Which recombination events are reported (value-level); the contents of the VCF itself (C04)."
 ASSUMPTIONS = ["a loop over vcf_reader / families / samples runs more than once for multi-chromosome / multi-family input"]
 
@@ -365,6 +368,13 @@ def _stmt_parent(node):
     return n.parent if n is not None else None
 
 
+def _nearest_loop(n):
+    p = getattr(n, "parent", None)
+    while p is not None and not isinstance(p, (ast.For, ast.While)):
+        p = getattr(p, "parent", None)
+    return p
+
+
 def r4(ctx):
     fr = ctx.func("whatshap.pedigree.find_recombination")
     # blocks[block_id] collects positions of ONE component; events pair block[i-1], block[i]
@@ -387,6 +397,15 @@ def r4(ctx):
         srt = any(isinstance(c, ast.Call) and u(c.func) == "%s.sort" % blockvar for c in ast.walk(outer[0])) if outer else False
         ok = ok and srt
     ctx.ob(fr.qual, "event-between-consecutive-members-of-one-set", ok, fr.loc(e), "an event is reported between %s and %s of one sorted component" % (u(a0), u(a1)) if ok else "event positions %s, %s are not consecutive members of one sorted component" % (u(a0), u(a1)))
+    # every phase set is examined: the block loop is only left when all blocks were seen, a block is skipped only when it is too short
+    for lp_ in [n for n in block_loops if u(n.iter) == "blocks.items()"]:
+        fcfg = ctx.cfg(fr)
+        exits = util.lexical_loop_exits(lp_)
+        conts = [n for n in ast.walk(lp_) if isinstance(n, ast.Continue) and _nearest_loop(n) is lp_]
+        blockv = u(lp_.target.elts[1])
+        badc = [c for c in conts if not any(t.startswith("len(%s)" % blockv) or t.endswith("len(%s)" % blockv) for t, p_ in guard_atoms(fcfg, fcfg.node_of(c)))]
+        okx = not exits and not badc
+        ctx.ob(fr.qual, "every-phase-set-searched-for-recombinations", okx, fr.loc(exits[0]) if exits else (fr.loc(badc[0]) if badc else fr.loc(lp_)), "the loop over blocks has no break/return and skips a block only on its own length" if okx else ("the loop over blocks is left by `%s` before all phase sets were examined: recombinations of the remaining sets are not listed" % u(exits[0]) if exits else "a block is skipped for a reason other than its length"))
     # per-block values are looked up by position, not taken as a contiguous slice (components interleave)
     check_block_lookup(ctx, fr)
     # decoding: father = value % 2, mother = value // 2
